@@ -152,7 +152,7 @@ pub struct DK {
 }
 show_struct2!(DK, a, b, c, d, w);
 
-/// default on Option, take_last + default on Option, duplicated + take_last (duplicated wins),
+/// bare default on Option, take_last + bare default on Option, duplicated + take_last (duplicated wins),
 /// duplicated + default (default is not consulted)
 #[derive(JominiDeserialize)]
 pub struct DO {
@@ -168,7 +168,7 @@ pub struct DO {
 }
 show_struct2!(DO, p, q, r, s, t);
 
-/// `default = "fn"` on an Option field (finding option-default-fn: the function is never called)
+/// `default = "fn"` on an Option field: a missing field is fn(), not None (regression: fixed finding option-default-fn)
 #[derive(JominiDeserialize)]
 pub struct DOF {
     #[jomini(default = "default_some_seven")]
